@@ -236,7 +236,9 @@ def run(tier):
                 raise core.InternalError('tracing changes the solo result of %s' % a)
             N = cnt['lines']
             per[sid] = {'lines': N, 'soloA': sa[0], 'soloB': sb[0]}
-            idx = list(range(1, N + 1)) if tier == 'thorough' else cnt['first']
+            # thorough: every line event for the hand-picked scenarios, first-occurrence points for the per-type ones
+            full = tier == 'thorough' and ((x, y) in SCENARIOS['quick'])
+            idx = list(range(1, N + 1)) if full else cnt['first']
             per[sid]['schedules'] = len(idx)
             step = 100
             for k in range(0, len(idx), step):
